@@ -295,6 +295,28 @@ def r15_6(ck: Check) -> None:
     ck.expect_count("R15.6", "key give-back sites", n, 1)
 
 
+def r15_7(ck: Check) -> None:
+    """what the balance command prints is the wallet's balance at the served state, in coin"""
+    q = "skepticoin.scripts.balance.main"
+    s = ck.summ(q, 0)
+    sp = Spec(s, ())
+    prints = [e for e in s.events if e.kind == "call" and e.parts and e.parts[0] == ("g", "builtin:print") and e.term[2]
+              and any(t == WC + ".get_balance" for x in [e] for t in [])]
+    bal = [e for e in s.events if e.kind == "call" and WC + ".get_balance" in e.targets]
+    construct = "scripts.balance: prints wallet.get_balance(served state) / SASHIMI_PER_COIN"
+    ok = False
+    if len(bal) == 1:
+        unit = ck.repo.const("skepticoin.params.SASHIMI_PER_COIN")
+        want = ("op", "div", bal[0].term, C(unit))
+        pr = [e for e in s.events if e.kind == "call" and e.parts and e.parts[0] == ("g", "builtin:print") and e.term[2] and e.term[2][0] == want]
+        served = bal[0].term[2] and bal[0].term[2][0][0] == "a" and bal[0].term[2][0][2] == "coinstate" and "chain_manager" in show(bal[0].term[2][0])
+        ok = len(pr) == 1 and bool(served)
+    if ok:
+        ck.ok("R15.7", construct, "", bal[0].loc)
+    else:
+        ck.violated("R15.7", construct, "the printed amount is not the balance divided by the coin unit: %s" % [show(e.term)[:160] for e in bal], s.fi.loc)
+
+
 def r15_4(ck: Check) -> None:
     atomic_replace(ck, "R15.4", W + "save_wallet", "'wallet.json'", "at every instant wallet.json is the complete previous or the complete new wallet")
     s = ck.summ(W + "save_wallet", 0)
@@ -346,6 +368,7 @@ def check(ck: Check) -> None:
     ck.run("R15.3", "persist before expose, at every call site", lambda: r15_3(ck))
     ck.run("R15.4", "atomic replace of wallet.json", lambda: r15_4(ck))
     ck.run("R15.6", "a key given back at shutdown is not persisted", lambda: r15_6(ck))
+    ck.run("R15.7", "the balance command reports the balance", lambda: r15_7(ck))
     ck.run("R15.5", "partition preserved; balance over all keys", lambda: r15_5(ck))
     from .c03 import r03_3, r03_4
     ck.run("R03.4", "per-key balances = unspent outputs paying the key (updater agreement)", lambda: (r03_4(ck), r03_3(ck)))
